@@ -221,6 +221,8 @@ def scenarios(prop, tier, rng):
         out.append(("n2", scen(n=2, cancel=1)))
         out.append(("n2b", scen(n=2, leader=1, consts=[False, True], out=[True, True], cancel=1)))
         out.append(("n3", scen(n=3, leader=2, consts=[True, False, False], out=[True, True, False], cancel=1)))
+        # cancel together with a failing coordination call (a notification may already have been sent)
+        out.append(("n2cf", scen(n=2, cancel=1, rpcfail=1)))
         if not q:
             out.append(("n2c2", scen(n=2, cancel=2)))
             out.append(("n3b", scen(n=3, leader=0, consts=[False, False, False], cancel=1)))
